@@ -14,6 +14,7 @@ import (
 	"bufio"
 	"context"
 	"encoding/json"
+	"errors"
 	"fmt"
 	"os"
 
@@ -191,13 +192,33 @@ func (db *DB) basicExport(ctx context.Context, config *client.BackupConfig) (err
 		if err != nil {
 			return err
 		}
-		docIDsCh, err := col.GetAllDocIDs(ctx)
+		// The docID producer owns a store iterator, it must have finished before the surrounding
+		// transaction is discarded, also when we return early with an error.
+		docIDsCtx, cancelDocIDs := context.WithCancel(ctx)
+		docIDsCh, err := col.GetAllDocIDs(docIDsCtx)
 		if err != nil {
+			cancelDocIDs()
 			return err
 		}
+		defer func() {
+			cancelDocIDs()
+			for range docIDsCh { //nolint:revive
+			}
+		}()
 
 		firstDoc := true
 		for docResultWithID := range docIDsCh {
+			if docResultWithID.Err != nil {
+				return docResultWithID.Err
+			}
+			doc, err := col.Get(ctx, docResultWithID.ID, false)
+			if errors.Is(err, client.ErrDocumentNotFoundOrNotAuthorized) {
+				// deleted documents are listed by GetAllDocIDs but are not part of a backup
+				continue
+			}
+			if err != nil {
+				return err
+			}
 			if firstDoc {
 				firstDoc = false
 			} else {
@@ -206,10 +227,6 @@ func (db *DB) basicExport(ctx context.Context, config *client.BackupConfig) (err
 				if err != nil {
 					return err
 				}
-			}
-			doc, err := col.Get(ctx, docResultWithID.ID, false)
-			if err != nil {
-				return err
 			}
 
 			isSelfReference := false
